@@ -329,7 +329,15 @@ def ty_s(t):
         return const_s(t["s"])
     if k in ("fndef", "closure", "coroutine", "coroutine_closure"):
         return "%s(%s)" % (k, t["def"])
-    return t.get("s", "?")
+    # fn pointers etc. arrive as rustc debug strings: bound regions are named after the DefId of the
+    # item that declares them, which differs between two otherwise identical signatures
+    return re.sub(r"DefId\([^)]*\)", "DefId", t.get("s", "?"))
+
+
+def erase_regions_str(s):
+    """Erase lifetime names from a rustc-printed type / clause string (`&'a T` -> `&T`, `'a` -> `'_`)."""
+    s = re.sub(r"&'[A-Za-z_]\w* ", "&", s)
+    return re.sub(r"'[A-Za-z_]\w*", "'_", s)
 
 
 def subst(t, mapping):
